@@ -258,6 +258,7 @@ pub fn locale_space(cfg: &Cfg, tag: &str, f: &ByteCheck<'_>) -> Stats {
     d.strategy("G3 near-miss mutations (1-3 edits) of well-formed locales (proptest)", &gen::s_near_miss(), cfg.seed, &format!("{tag}-g3"), n, |b| b.clone());
     d.strategy("G2 long locales: many variants, keywords and private tags, 100-400 bytes (proptest)", &gen::s_locale_long_bytes(), cfg.seed, &format!("{tag}-g2long"), n / 8, |b| b.clone());
     d.strategy("G2 long language ids, 5-16 variants (proptest)", &gen::s_langid_long_bytes(), cfg.seed, &format!("{tag}-g2longid"), n / 16, |b| b.clone());
+    d.strategy("G2 huge locales: 20-150 attributes / keywords / tfields / private tags, up to a few thousand bytes (proptest)", &gen::s_locale_huge_bytes(), cfg.seed, &format!("{tag}-g2huge"), n / 64, |b| b.clone());
     let n4 = cfg.pick(100_000, 2_000_000);
     d.strategy("G4 weighted raw bytes (proptest)", &gen::s_raw(), cfg.seed, &format!("{tag}-g4"), n4, |b| b.clone());
     let c = gen::corpus(&cfg.repo);
